@@ -113,6 +113,18 @@ func c17stress(args []string) {
 				fmt.Fprintf(&src, "(run (progn (dotimes (i %d) (with-mutex-lock mu (send inst :bump)) (send inst :peek)) (channel-push fin %d)))\n", st.M, k)
 			}
 			fmt.Fprintf(&src, "(dotimes (i %d) (channel-pop fin))\n(setq xcnt (send inst :n))\n", st.N)
+		case "rangehandoff":
+			// m items wait in a closed buffered channel; n consumers in turn take them with range, every one but the last gives
+			// up (an error in its function, handled around the range) after m/n items: what it had not yet been given is still
+			// in the channel for the next one - every item is received exactly once, in the order pushed
+			fmt.Fprintf(&src, "(setq ch (make-channel %d)) (dotimes (i %d) (channel-push ch (list 1 i))) (channel-close ch)\n", st.M, st.M)
+			for c := 1; c <= st.N; c++ {
+				stop := ""
+				if c < st.N {
+					stop = fmt.Sprintf(" (when (= (length got%d) %d) (error \"gives up\"))", c, st.M/st.N)
+				}
+				fmt.Fprintf(&src, "(setq got%d nil) (ignore-errors (range (lambda (v) (setq got%d (cons v got%d))%s) ch)) (setq got%d (reverse got%d))\n", c, c, c, stop, c, c)
+			}
 		case "withslots":
 			// n routines, each inside ONE with-slots body over the same synchronized instance for all its m turns, pass a token round a
 			// ring of channels: a routine increments the slot only while it holds the token, so the accesses are ordered by the
@@ -258,7 +270,7 @@ func c17stress(args []string) {
 		switch st.Kind {
 		case "selectfn":
 			ev["got"] = [][][]int{c17sPairs(h.Eval(s, "got1").Val), c17sPairs(h.Eval(s, "got2").Val)}
-		case "chan", "select":
+		case "chan", "select", "rangehandoff":
 			got := [][][]int{}
 			for c := 1; c <= st.N; c++ {
 				got = append(got, c17sPairs(h.Eval(s, fmt.Sprintf("got%d", c)).Val))
